@@ -256,7 +256,7 @@ func (oc *originCtx) resolveCall(fn *ssa.Function, c *ssa.Call, res originSet) {
 					}
 				}
 			}
-			oc.add(res, errOrigin{"NEW", key + "#" + strconv.Itoa(n), fn, c})
+			oc.add(res, errOrigin{"NEW", ctorFamily(key) + "#" + strconv.Itoa(n), fn, c})
 		}
 		return
 	}
@@ -548,3 +548,16 @@ var ordRe = regexp.MustCompile(`@[0-9]+`)
 
 // stripOrd removes instruction ordinals from a term string so that it can be used in a stable construct key.
 func stripOrd(s string) string { return ordRe.ReplaceAllString(s, "") }
+
+
+// ctorFamily: constructors that differ only in whether the text is a format (status.Error / status.Errorf,
+// errors.New / fmt.Errorf) are one origin kind; the reviewed tables name the formatting one.
+func ctorFamily(k string) string {
+	switch k {
+	case "status.Error":
+		return "status.Errorf"
+	case "errors.New":
+		return "fmt.Errorf"
+	}
+	return k
+}
